@@ -27,26 +27,26 @@ AS = RT + "async_support/"
 MUTATIONS = [
     ("c21_m1_skip_subtask_drop", "C21", AS + "subtask.rs",
      "            drop(self.handle.get());\n", "            let _ = self.handle.get();\n",
-     "SubtaskHandle::drop no longer calls subtask.drop"),
+     "SubtaskHandle::drop no longer calls subtask.drop", "c21_(ind_(pd|ped|pepd|pepepd)|flat_pd)$"),
     ("c21_m2_dealloc_lists_twice", "C21", AS + "subtask.rs",
      "            op.params_dealloc_lists(self.params_lower);\n",
      "            op.params_dealloc_lists(self.params_lower);\n            op.params_dealloc_lists(self.params_lower);\n",
-     "flag_started releases the parameter lists twice"),
+     "flag_started releases the parameter lists twice", "c21_(ind_(pd|ped|pepd|pepepd)|flat_pd)$"),
     ("c21_m3_returned_cancelled_no_dealloc", "C21", AS + "subtask.rs",
      "            STATUS_RETURNED_CANCELLED => {\n                if !state.started {\n                    state.flag_started(self.0);\n                }\n",
      "            STATUS_RETURNED_CANCELLED => {\n",
-     "RETURNED_CANCELLED before STARTED was seen: parameter lists never released"),
+     "RETURNED_CANCELLED before STARTED was seen: parameter lists never released", "c21_(ind_(pd|ped|pepd|pepepd)|flat_pd)$"),
     ("c21_m4_started_cancelled_lists_only", "C21", AS + "subtask.rs",
      "                    self.0.params_dealloc_lists_and_own(state.params_lower);\n",
      "                    self.0.params_dealloc_lists(state.params_lower);\n",
-     "STARTED_CANCELLED releases lists only (owned handles leak)"),
+     "STARTED_CANCELLED releases lists only (owned handles leak)", "c21_(ind_(pd|ped|pepd|pepepd)|flat_pd)$"),
     ("c21_m5_area_leak", "C21", AS + "subtask.rs",
      "                    params_and_results: cleanup,\n",
      "                    params_and_results: { if let Some(c) = cleanup { c.forget(); } None },\n",
-     "the parameter/result area is forgotten (leak; results then lifted from a null base)"),
+     "the parameter/result area is forgotten (leak; results then lifted from a null base)", "c21_(ind_(pd|ped|pepd|pepepd)|flat_pd)$"),
     ("c21_m6_cancel_without_unregister", "C21", AS + "waitable.rs",
      "                self.as_mut().unregister_waker(waitable);\n", "                let _ = waitable;\n",
-     "WaitableOperation::cancel does not unregister the waker before cancelling"),
+     "WaitableOperation::cancel does not unregister the waker before cancelling", "c21_(ind_(pd|ped|pepd|pepepd)|flat_pd)$"),
     ("c21_m7_lift_on_cancel", "C21", AS + "subtask.rs",
      "            STATUS_RETURNED_CANCELLED => {\n                if !state.started {\n                    state.flag_started(self.0);\n                }\n                Ok(Err(()))\n",
      "            STATUS_RETURNED_CANCELLED => {\n                if !state.started {\n                    state.flag_started(self.0);\n                }\n                let ptr = state.ptr_results(self.0);\n                unsafe { core::mem::drop(self.0.results_lift(ptr)); }\n                Ok(Err(()))\n",
@@ -110,6 +110,12 @@ MUTATIONS = [
     ("c19_m6_lifted_double_dealloc", "C19", AS + "abi_buffer.rs",
      "                self.ops.dealloc_lists(ptr.cast_mut());\n", "                self.ops.dealloc_lists(ptr.cast_mut());\n                self.ops.dealloc_lists(ptr.cast_mut());\n",
      "AbiBuffer::advance releases the lists of a transferred item twice", "c19_abibuf_val_len(1|3)$"),
+    # ---- changes seeded by independent agents (/verif/seeded/<id>/patch.diff), applied with `git apply`
+    ("seeded_C18-1", "C18", "PATCH", "/verif/seeded/C18-1/patch.diff", "", "registered flag not cleared when cancel() consumes a queued code", "c18_one_"),
+    ("seeded_C18-3", "C18", "PATCH", "/verif/seeded/C18-3/patch.diff", "", "registered flag not set on re-registration with the same task", "c18_two_v2"),
+    ("seeded_C19-1", "C19", "PATCH", "/verif/seeded/C19-1/patch.diff", "", "AbiBuffer cursor advances the ABI pointer by bytes instead of elements", "c19_(abibuf|write2)"),
+    ("seeded_C19-2", "C19", "PATCH", "/verif/seeded/C19-2/patch.diff", "", "writer.done not set for DROPPED with a non-zero count", "c19_(write2|read2|write_u8_pc)"),
+    ("seeded_C19-3", "C19", "PATCH", "/verif/seeded/C19-3/patch.diff", "", "MAX_LENGTH is 2^28 instead of 2^28 - 1", "c19_maxlen"),
 ]
 
 
@@ -132,12 +138,18 @@ def main():
         if not re.search(a.only, mid):
             continue
         sh(["git", "-C", WT, "checkout", "--", "."])
-        path = os.path.join(WT, file)
-        src = open(path).read()
-        if src.count(old) != 1:
-            results.append((mid, prop, "NOT-APPLIED (%d matches)" % src.count(old), "", what))
-            continue
-        open(path, "w").write(src.replace(old, new))
+        if file == "PATCH":
+            r = sh(["git", "-C", WT, "apply", old])
+            if r.returncode != 0:
+                results.append((mid, prop, "NOT-APPLIED (git apply failed)", "", what))
+                continue
+        else:
+            path = os.path.join(WT, file)
+            src = open(path).read()
+            if src.count(old) != 1:
+                results.append((mid, prop, "NOT-APPLIED (%d matches)" % src.count(old), "", what))
+                continue
+            open(path, "w").write(src.replace(old, new))
         env = dict(os.environ, VERIF_REPO=WT, VERIF_EVIDENCE_DIR="/verif/work/mut_evidence", VERIF_TIER=a.tier)
         if a.harness or only_h:
             env["VERIF_RTKANI_ONLY"] = a.harness or only_h
